@@ -1,0 +1,16 @@
+//go:build verif
+// +build verif
+
+package core
+
+// Verification hook for property C09 (hibernation is transparent).  Add-only.
+
+// VerifC09SetPlanPrinter replaces the sink printAction writes to (the package variable planPrintFunc)
+// and returns the previous one.  With Pipeline.DumpPlan set, Run's own prepareRunPlan call then
+// reports the very plan that Run executes (the planner iterates Go maps, so a second call of
+// prepareRunPlan may order merges and branch replays differently).
+func VerifC09SetPlanPrinter(f func(args ...interface{})) func(args ...interface{}) {
+	old := planPrintFunc
+	planPrintFunc = f
+	return old
+}
